@@ -81,8 +81,8 @@ fn c10_block_replay() {
         }
     }
     let mut cases = 0u64;
-    // every non-empty subset of the 10 candidates with at most 5 members
-    for mask in 1u32..(1 << all.len()) {
+    // every subset of the 10 candidates with at most 5 members -- the empty block included
+    for mask in 0u32..(1 << all.len()) {
         if mask.count_ones() > 5 {
             continue;
         }
